@@ -114,7 +114,9 @@ def W(o):
 
 
 class Builder:
-    def __init__(self, bases, mros, placement):
+    def __init__(self, bases, mros, placement, dyn=None):
+        self.dyn = dyn or {}   # class index -> 'type3' (made by type(name, bases, dict)) | 'locals' (class body keeps its locals())
+        self.twins = []
         self.bases = bases
         self.mros = mros
         self.n = len(bases)
@@ -169,11 +171,42 @@ class Builder:
             t = 't%d' % self.t
             self.t += 1
             ok = self.mros[i] is not None
-            self.src.append('try:\n    class C%d(%s):\n%s    REG.append(("C%d", C%d))\n    print("%s", "ok")\nexcept TypeError:\n    print("%s", "TE")\n' % (
-                i, ', '.join('C%d' % b for b in self.bases[i]), ''.join(body), i, i, t, t))
+            how = self.dyn.get(i)
+            if how == 'type3':
+                # the class is made by calling type() with a dict the program keeps, makes a second class from, and writes to afterwards:
+                # the class owns a copy, so none of that may show through it
+                pre = ['NS%d = {}\n' % i]
+                for name in NAMES:
+                    if name not in d:
+                        continue
+                    kind, label = d[name]
+                    fn = '_f%d_%s' % (i, name)
+                    if kind == 'p':
+                        pre.append('NS%d["%s"] = "%s"\n' % (i, name, label))
+                    elif kind == 'm':
+                        pre.append('def %s(self):\n    return "%s:" + W(self)\nNS%d["%s"] = %s\n' % (fn, label, i, name, fn))
+                    elif kind == 'c':
+                        pre.append('def %s(cls):\n    return "%s:" + W(cls)\nNS%d["%s"] = classmethod(%s)\n' % (fn, label, i, name, fn))
+                    else:
+                        pre.append('def %s():\n    return "%s"\nNS%d["%s"] = staticmethod(%s)\n' % (fn, label, i, name, fn))
+                self.src.append(''.join(pre))
+                self.src.append('try:\n    C%d = type("C%d", (%s), NS%d)\n    REG.append(("C%d", C%d))\n    print("%s", "ok")\nexcept TypeError:\n    print("%s", "TE")\n' % (
+                    i, i, ''.join('C%d, ' % b for b in self.bases[i]), i, i, i, t, t))
+                if ok:
+                    self.src.append('TW%d = type("TW%d", (), NS%d)\n' % (i, i, i))
+                    self.twins.append((i, dict(d)))
+                self.src.append('for n_ in ["x", "y"]:\n    NS%d[n_] = "NS:w"\nNS%d["x"] = "NS:w2"\n' % (i, i))
+            elif how == 'locals':
+                self.src.append('KEEP%d = []\n' % i)
+                self.src.append('try:\n    class C%d(%s):\n%s        KEEP%d.append(locals())\n    REG.append(("C%d", C%d))\n    print("%s", "ok")\nexcept TypeError:\n    print("%s", "TE")\n' % (
+                    i, ', '.join('C%d' % b for b in self.bases[i]), ''.join(body) if body != ['        pass\n'] else '', i, i, i, t, t))
+                self.src.append('for d_ in KEEP%d:\n    d_["x"] = "NS:w"\n    d_["y"] = "NS:w"\n' % i)
+            else:
+                self.src.append('try:\n    class C%d(%s):\n%s    REG.append(("C%d", C%d))\n    print("%s", "ok")\nexcept TypeError:\n    print("%s", "TE")\n' % (
+                    i, ', '.join('C%d' % b for b in self.bases[i]), ''.join(body), i, i, t, t))
             self.exp.append('%s %s' % (t, 'ok' if ok else 'TE'))
             nb = len(self.bases[i])
-            self.meta.append({'access': 'class-stmt', 'expected': 'ok' if ok else 'TypeError', 'nbases': nb})
+            self.meta.append({'access': 'class-stmt' if not how else 'class-' + how, 'expected': 'ok' if ok else 'TypeError', 'nbases': nb})
             if ok:
                 self.cls[i] = d
                 self.alive.append(i)
@@ -232,6 +265,7 @@ class Builder:
             for name in NAMES:
                 self.read_inst('i%d' % k, name, 'plain')
                 self.read_cls(k, name, 'plain')
+        self.read_twins('plain')
 
     def isinstances(self):
         for k in self.alive:
@@ -262,6 +296,16 @@ class Builder:
         for k in self.alive:
             self.read_inst('i%d' % k, name, ctx)
             self.read_cls(k, name, ctx)
+        self.read_twins(ctx)
+
+    def read_twins(self, ctx):
+        # the second class made from the same dict keeps the plain attributes it was made with, whatever happened to the dict or to its twin
+        for k, d in self.twins:
+            for name in NAMES:
+                if name in d and d[name][0] == 'p':
+                    self.line('TW%d.%s' % (k, name), d[name][1], {'access': 'cls-read', 'where': 'own', 'kind': 'p', 'mro': 'linear', 'ctx': 'twin-' + ctx})
+                elif name not in d:
+                    self.line('TW%d.%s' % (k, name), 'AE', {'access': 'cls-read', 'where': 'missing', 'kind': '-', 'mro': 'linear', 'ctx': 'twin-' + ctx})
 
     def cls_write(self, b, name):
         val = 'C%d:w' % b
@@ -296,7 +340,12 @@ def random_placement(n, r):
 
 
 def build_program(bases, mros, placement, r, heavy=True):
-    b = Builder(bases, mros, placement)
+    dyn = {}
+    if r.random() < 0.4:
+        for i in range(len(bases)):
+            if r.random() < 0.5:
+                dyn[i] = r.choice(['type3', 'type3', 'locals'])
+    b = Builder(bases, mros, placement, dyn)
     b.define_classes()
     if not b.alive:
         return b.result()
@@ -349,7 +398,7 @@ def classify(exp_line, got_line, meta):
         return 'misaligned'
     if meta['access'] == 'isinstance':
         return '%s-instead-of-%s' % (g, e)
-    if meta['access'] == 'class-stmt':
+    if meta['access'].startswith('class-'):
         return 'accepted' if g == 'ok' else 'rejected:%s' % g
     if g in ('AE', 'TE'):
         return '%s-instead-of-%s' % (g, 'value' if e not in ('AE', 'TE', 'ok') else e)
@@ -366,8 +415,8 @@ def classify(exp_line, got_line, meta):
 
 def signature(meta, dev):
     a = meta['access']
-    if a == 'class-stmt':
-        return 'C16|class-stmt|expected=%s|dev=%s|nbases=%d' % (meta['expected'], dev, meta['nbases'])
+    if a.startswith('class-'):
+        return 'C16|%s|expected=%s|dev=%s|nbases=%d' % (a, meta['expected'], dev, meta['nbases'])
     if a == 'isinstance':
         return 'C16|isinstance|rel=%s|dev=%s|mro=%s' % (meta['rel'], dev, meta['mro'])
     if a in ('inst-read', 'cls-read'):
@@ -487,7 +536,7 @@ def run(tier, rep):
                                      'bases': ['C%d(%s)' % (ci, ','.join('C%d' % x for x in bl)) for ci, bl in enumerate(bases)]})
             if not hit:
                 extra['tainted_observations'] += 1
-            if got is None or dev == 'misaligned' or a == 'class-stmt':
+            if got is None or dev == 'misaligned' or a.startswith('class-'):
                 stop = True
             if stop:
                 break
